@@ -122,6 +122,16 @@ def attack(ctx, obj, what, case):
                 ctx.violation(f"attribute-changed-by-failed-attack:{what}", f"{n}", case)
         except AttributeError:
             ctx.violation(f"attribute-changed-by-failed-attack:{what}", f"{n} vanished", case)
+        # put things back where an attack went through, so that the checks that follow see the value as generated
+        try:
+            if getattr(obj, n, attack) is not v:  # (any sentinel that cannot be a field value)
+                object.__setattr__(obj, n, v)
+        except Exception:
+            pass
+    try:
+        object.__delattr__(obj, "brand_new_attribute")
+    except Exception:
+        pass
 
 
 def check_value_immutability(ctx, val):
@@ -171,8 +181,9 @@ def check_value_immutability(ctx, val):
     for a in (getattr(rd, s, None) for s in type(rd).__slots__ if isinstance(type(rd).__slots__, (list, tuple))):
         if isinstance(a, tuple):
             for item in a:
-                if hasattr(item, "__slots__") and not isinstance(item, (dns.name.Name, bytes, str, int)) and t in ("APL",):
-                    attack(ctx, item, t + ".item", case)
+                if not isinstance(item, (dns.name.Name, dns.rdata.Rdata, bytes, str, int, float, tuple)) and (hasattr(item, "__slots__") or hasattr(item, "__dict__")):
+                    # helper objects held in a field (APL items, EDNS options of an OPT record, ...): part of the record's value
+                    attack(ctx, item, t + ".item:" + type(item).__mro__[-2].__name__, case)
         elif isinstance(a, dns.immutable.Dict):
             for k, v in a.items():
                 if v is not None:
